@@ -1,4 +1,5 @@
 import SrProofs.Flowpath
+import SrProofs.FlowpathUnique
 
 /-!
 # C14 — flow-path solution balances heat and mass at every link
@@ -15,6 +16,10 @@ functions `cp`, `rho`, `film` (the fluid model is a parameter) and any state vec
 `inletDof ps i = Σ_{j<i} (n_j + 1)` is the index in `T` of the node feeding panel `i` (the start
 node for `i = 0`, the manifold of panel `i-1` otherwise); the tube outlets of panel `i` are the
 next `n_i` entries and its manifold the one after.
+
+The last section specialises to constant `cp > 0` and constant `film ≥ 0`: the tube equation is then
+affine in the outlet temperature with positive slope (`tube_outlet_closed_form`), so the root of the
+chain residual is explicit (`root_tube_closed_form`) and **unique** (`chain_unique_const_props`).
 -/
 namespace SrProps.C14
 open SrModel.Flowpath
@@ -178,6 +183,135 @@ theorem recover_indexing (fl : FluidFns K) (pi Tin : K) (ps : List (Panel K)) (T
   have := recoverSpec_index fl pi T ps 0 L (recover_spec fl pi Tin ps T L h)
   simpa using this
 
+/-! ### constant fluid properties: the solution is explicit and unique -/
+
+/-- **tube_outlet_closed_form.** For a constant specific heat `cp ≡ cp0 > 0` and a constant film
+coefficient `film ≡ hf ≥ 0` (`π ≥ 0`, `ṁ, r, h > 0`, positive multipliers, `nt` rows of `nz` wall
+temperatures for the tube) entry `j` of `SimplePanelLink.residual` is **affine** in the tube outlet
+temperature `Tj`:
+
+`r_j = a (Tj − Ts) − b (S − n Ts − c (Tj − Ts))`,
+`a = w ṁ/N·cp0`, `b = r·(h/nz)·(2π/nt)·w·hf`, `S = Σ_θ Σ_z T_metal`, `n = nt·nz`, `c = nt·Σ_z z/h`,
+
+the slope `a + b c` is positive, and therefore `r_j = 0` **iff** `Tj = Ts + b (S − n Ts)/(a + b c)`:
+the tube equation has exactly one solution, given in closed form. -/
+theorem tube_outlet_closed_form (fl : FluidFns K) (pi cp0 hf : K) (p : Panel K) (Ts : K) (Tt : List K)
+    (hcp : fl.cp = fun _ => cp0) (hfilm : fl.film = fun _ _ _ => hf)
+    (hcp0 : 0 < cp0) (hhf : 0 ≤ hf) (hpi : 0 ≤ pi)
+    (hmdot : 0 < p.mdot) (hri : 0 < p.ri) (hh : 0 < p.h) (hw : ∀ w ∈ p.weights, 0 < w)
+    (j : Nat) (w Tj : K) (mj : List (List K))
+    (hwj : p.weights[j]? = some w) (hTj : Tt[j]? = some Tj) (hmj : p.metal[j]? = some mj)
+    (hθ : mj.length = p.nt) (hrow : ∀ row ∈ mj, row.length = p.nz) :
+    ∃ a b S n c r : K,
+      a = w * p.mdot / p.weights.sum * cp0 ∧
+      b = p.ri * (p.h / (p.nz : K)) * (2 * pi / (p.nt : K)) * w * hf ∧
+      S = (mj.map List.sum).sum ∧ n = (p.nt : K) * (p.nz : K) ∧
+      c = (p.nt : K) * ((zs p.h p.nz).sum / p.h) ∧
+      (panelResidual fl pi p Ts Tt)[j]? = some r ∧
+      r = a * (Tj - Ts) - b * (S - n * Ts - c * (Tj - Ts)) ∧
+      0 < a + b * c ∧
+      (r = 0 ↔ Tj = Ts + b * (S - n * Ts) / (a + b * c)) := by
+  have hp : PanelOK p := ⟨hmdot, hri, hh, hw⟩
+  have hmem : w ∈ p.weights := List.mem_of_getElem? hwj
+  refine ⟨_, _, _, _, _, _, rfl, rfl, rfl, rfl, rfl,
+    panelResidual_getElem? fl pi p Ts Tt j w Tj mj hwj hTj hmj, ?_, ?_, ?_⟩
+  · have := tubeResidual_affine fl pi p cp0 hf w Ts Tj mj hcp hfilm hrow
+    simpa only [tubeA, tubeB, metalSum, zFrac, hθ] using this
+  · have := tubeSlope_pos pi p w cp0 hf mj.length hp hmem hcp0 hpi hhf
+    simpa only [tubeA, tubeB, zFrac, hθ] using this
+  · have := tube_zero_iff fl pi p cp0 hf w Ts Tj mj hcp hfilm hp hmem hrow hcp0 hpi hhf
+    simpa only [tubeA, tubeB, metalSum, zFrac, hθ] using this
+
+/-- `Σ_z z/h = nz/2` on `linspace(0, h, nz)` with at least two points — so `c = n/2` above — while a
+single axial point sits at `z = 0` (`c = 0`: the outlet temperature does not enter `Q_conv` at all) -/
+theorem heights_fraction (p : Panel K) (hh : p.h ≠ 0) :
+    (1 < p.nz → (zs p.h p.nz).sum / p.h = (p.nz : K) / 2) ∧
+    (p.nz = 1 → (zs p.h p.nz).sum / p.h = 0) :=
+  ⟨fun hnz => zFrac_eq p hh hnz, fun hnz => zFrac_one p hnz⟩
+
+/-- **outlet_moves_towards_wall.** Under the hypotheses of `tube_outlet_closed_form`, at a zero of
+the tube equation the fluid moves towards the mean wall temperature `S/n`:
+`(Tj − Ts)·(S − n Ts) ≥ 0`; and with at least two axial points the tube's *mean* fluid temperature
+`T̄ = (Tj + Ts)/2` does not pass it: `n (T̄ − Ts)·(S − n Ts) ≤ (S − n Ts)²`. -/
+theorem outlet_moves_towards_wall (fl : FluidFns K) (pi cp0 hf : K) (p : Panel K) (Ts : K) (Tt : List K)
+    (hcp : fl.cp = fun _ => cp0) (hfilm : fl.film = fun _ _ _ => hf)
+    (hcp0 : 0 < cp0) (hhf : 0 ≤ hf) (hpi : 0 ≤ pi)
+    (hmdot : 0 < p.mdot) (hri : 0 < p.ri) (hh : 0 < p.h) (hw : ∀ w ∈ p.weights, 0 < w)
+    (j : Nat) (w Tj : K) (mj : List (List K))
+    (hwj : p.weights[j]? = some w) (hTj : Tt[j]? = some Tj) (hmj : p.metal[j]? = some mj)
+    (hθ : mj.length = p.nt) (hrow : ∀ row ∈ mj, row.length = p.nz)
+    (hz : (panelResidual fl pi p Ts Tt)[j]? = some 0) :
+    0 ≤ (Tj - Ts) * ((mj.map List.sum).sum - (p.nt : K) * (p.nz : K) * Ts) ∧
+    (1 < p.nz →
+      (p.nt : K) * (p.nz : K) * ((Tj + Ts) / 2 - Ts) *
+          ((mj.map List.sum).sum - (p.nt : K) * (p.nz : K) * Ts) ≤
+        ((mj.map List.sum).sum - (p.nt : K) * (p.nz : K) * Ts) *
+          ((mj.map List.sum).sum - (p.nt : K) * (p.nz : K) * Ts)) := by
+  have hp : PanelOK p := ⟨hmdot, hri, hh, hw⟩
+  have hmem : w ∈ p.weights := List.mem_of_getElem? hwj
+  rw [panelResidual_getElem? fl pi p Ts Tt j w Tj mj hwj hTj hmj] at hz
+  have hz0 := Option.some.inj hz
+  constructor
+  · have := tube_towards_wall fl pi p cp0 hf w Ts Tj mj hcp hfilm hp hmem hrow hcp0 hpi hhf hz0
+    simpa only [metalSum, hθ] using this
+  · intro hnz
+    have := (tube_mean_between fl pi p cp0 hf w Ts Tj mj hcp hfilm hp hmem hrow hcp0 hpi hhf hnz hz0).2
+    simpa only [metalSum, hθ] using this
+
+/-- **chain_unique_const_props.** For a constant specific heat `cp ≡ cp0 > 0` and a constant film
+coefficient `film ≡ hf ≥ 0` (`π ≥ 0`; every panel with `ṁ, r, h > 0`, positive multipliers and rows of
+`nz` wall temperatures), for any number of panels and tubes: two state vectors of the right length
+that both zero the chain residual are **equal** — the inlet temperature determines the whole flow
+path (start node, every tube outlet, every manifold). -/
+theorem chain_unique_const_props (fl : FluidFns K) (pi cp0 hf Tin : K) (ps : List (Panel K))
+    (T T' : List K) (R R' : List (List K))
+    (hcp : fl.cp = fun _ => cp0) (hfilm : fl.film = fun _ _ _ => hf)
+    (hcp0 : 0 < cp0) (hhf : 0 ≤ hf) (hpi : 0 ≤ pi)
+    (hps : ∀ p ∈ ps, 0 < p.mdot ∧ 0 < p.ri ∧ 0 < p.h ∧ (∀ w ∈ p.weights, 0 < w) ∧
+      ∀ mj ∈ p.metal, ∀ row ∈ mj, row.length = p.nz)
+    (hlen : T.length = nvals ((mkChain Tin ps).map Link.size))
+    (hlen' : T'.length = nvals ((mkChain Tin ps).map Link.size))
+    (hR : chainResidual fl pi (mkChain Tin ps) T = some R) (hz : ∀ r ∈ R, ∀ x ∈ r, x = 0)
+    (hR' : chainResidual fl pi (mkChain Tin ps) T' = some R') (hz' : ∀ r ∈ R', ∀ x ∈ r, x = 0) :
+    T = T' :=
+  chain_unique fl pi cp0 hf Tin ps T T' R R' hcp hfilm hcp0 hpi hhf
+    (fun p hp => ⟨⟨(hps p hp).1, (hps p hp).2.1, (hps p hp).2.2.1, (hps p hp).2.2.2.1⟩,
+      (hps p hp).2.2.2.2⟩) hlen hlen' hR hz hR' hz'
+/-- **root_tube_closed_form.** At a root of the chain residual, constant `cp`, `film`: every tube outlet
+of every panel is the closed form of `tube_outlet_closed_form` evaluated at the panel's inlet node. -/
+theorem root_tube_closed_form (fl : FluidFns K) (pi cp0 hf Tin : K) (ps : List (Panel K)) (T : List K)
+    (R : List (List K))
+    (hcp : fl.cp = fun _ => cp0) (hfilm : fl.film = fun _ _ _ => hf)
+    (hcp0 : 0 < cp0) (hhf : 0 ≤ hf) (hpi : 0 ≤ pi)
+    (hps : ∀ p ∈ ps, 0 < p.mdot ∧ 0 < p.ri ∧ 0 < p.h ∧ (∀ w ∈ p.weights, 0 < w) ∧
+      ∀ mj ∈ p.metal, ∀ row ∈ mj, row.length = p.nz)
+    (hR : chainResidual fl pi (mkChain Tin ps) T = some R) (hz : ∀ r ∈ R, ∀ x ∈ r, x = 0)
+    (i : Nat) (hi : i < ps.length) :
+    ∃ Ts Tt, T[inletDof ps i]? = some Ts ∧
+      gather T (List.range' (inletDof ps i + 1) ps[i].weights.length) = some Tt ∧
+      ∀ (j : Nat) (w Tj : K) (mj : List (List K)),
+        ps[i].weights[j]? = some w → Tt[j]? = some Tj → ps[i].metal[j]? = some mj →
+        mj.length = ps[i].nt →
+        Tj = Ts +
+          ps[i].ri * (ps[i].h / (ps[i].nz : K)) * (2 * pi / (ps[i].nt : K)) * w * hf *
+              ((mj.map List.sum).sum - (ps[i].nt : K) * (ps[i].nz : K) * Ts) /
+            (w * ps[i].mdot / ps[i].weights.sum * cp0 +
+              ps[i].ri * (ps[i].h / (ps[i].nz : K)) * (2 * pi / (ps[i].nt : K)) * w * hf *
+                ((ps[i].nt : K) * ((zs ps[i].h ps[i].nz).sum / ps[i].h))) := by
+  obtain ⟨Ts, Tt, Tm, h1, h2, _, hl1, hl2, hbal, _⟩ :=
+    panelsBalanced_index fl pi T ps 0 (chain_root fl pi Tin ps T R hR hz).2 i hi
+  simp only [Nat.zero_add] at h1 h2
+  refine ⟨Ts, Tt, h1, h2, ?_⟩
+  intro j w Tj mj hw hT hm hθ
+  obtain ⟨hjw, rfl⟩ := List.getElem?_eq_some_iff.1 hw
+  obtain ⟨hjT, rfl⟩ := List.getElem?_eq_some_iff.1 hT
+  obtain ⟨hjm, rfl⟩ := List.getElem?_eq_some_iff.1 hm
+  obtain ⟨hmdot, hri, hh, hwpos, hrows⟩ := hps ps[i] (List.getElem_mem _)
+  have := (tube_zero_iff fl pi ps[i] cp0 hf ps[i].weights[j] Ts Tt[j] ps[i].metal[j] hcp hfilm
+    ⟨hmdot, hri, hh, hwpos⟩ (List.getElem_mem _) (hrows _ (List.getElem_mem _)) hcp0 hpi hhf).1
+    (sub_eq_zero.2 (hbal j hjw))
+  simpa only [tubeA, tubeB, metalSum, zFrac, hθ] using this
+
 /-! ### non-vacuity (over `ℚ`) -/
 
 /-- a fluid with `cp = rho = film = 1` -/
@@ -221,5 +355,27 @@ example : ∃ prof, (recoverPanel flEx 3 pEx2 15 [18, 21]).temps[1]? = some prof
 
 example : dofMap [1, 2, 1, 3, 1] = [[0], [1, 2], [3], [4, 5, 6], [7]] := by decide
 example : inletDof [pEx, pEx2] 1 = 2 ∧ inletDof [pEx, pEx2] 0 = 0 := by decide
+
+/-- `tube_outlet_closed_form` applied to `pEx` (one panel, one tube, `nz = 2`, `nt = 1`, `π := 3`, inlet
+at 0): `a = 4`, `b = 12`, `S = 20`, `n = 2`, `c = 1`, so the unique outlet is `12·20/(4 + 12) = 15` -/
+example (Tj : ℚ) (r : ℚ) (h : (panelResidual flEx 3 pEx 0 [Tj])[0]? = some r) : r = 0 ↔ Tj = 15 := by
+  obtain ⟨a, b, S, n, c, r', ha, hb, hS, hn, hc, hr', _, _, hiff⟩ :=
+    tube_outlet_closed_form flEx 3 1 1 pEx 0 [Tj] rfl rfl (by norm_num) (by norm_num) (by norm_num)
+      (by norm_num [pEx]) (by norm_num [pEx]) (by norm_num [pEx]) (by simp [pEx]) 0 2 Tj [[10, 10]]
+      rfl rfl rfl rfl (by simp [pEx])
+  rw [h] at hr'
+  cases hr'
+  have e : (0 : ℚ) + b * (S - n * 0) / (a + b * c) = 15 := by
+    subst ha hb hS hn hc
+    norm_num [pEx, zs, natEmb_eq, List.range_succ]
+  rw [hiff, e]
+
+/-- `chain_unique_const_props` applied: every root of the one-panel chain is `[0, 15, 15]` -/
+example (T : List ℚ) (R : List (List ℚ)) (hlen : T.length = 3)
+    (hR : chainResidual flEx 3 (mkChain 0 [pEx]) T = some R) (hz : ∀ r ∈ R, ∀ x ∈ r, x = 0) :
+    T = [0, 15, 15] :=
+  chain_unique_const_props flEx 3 1 1 0 [pEx] T [0, 15, 15] R [[0], [0], [0]] rfl rfl
+    (by norm_num) (by norm_num) (by norm_num) (by simp [pEx]) hlen rfl hR hz (by decide +kernel)
+    (by simp)
 
 end SrProps.C14
